@@ -1599,6 +1599,15 @@ class LinearOperator(object):
         else:
             raise RuntimeError("Invalid arguments {} to expand.".format(sizes))
 
+        # refuse what Tensor.expand refuses: an existing batch dimension must be 1 or already have the requested
+        # size, and every requested size must be non-negative (_expand_batch implementations floor-divide)
+        if any(size < 0 for size in shape[:-2]) or torch.broadcast_shapes(self.batch_shape, shape[:-2]) != shape[:-2]:
+            raise RuntimeError(
+                "Invalid expand arguments {}: the batch shape {} cannot be expanded to {}.".format(
+                    tuple(sizes), tuple(self.batch_shape), tuple(shape[:-2])
+                )
+            )
+
         res = self._expand_batch(batch_shape=shape[:-2])
         return res
 
